@@ -9,6 +9,7 @@ import (
 	"io"
 	"net"
 	"strings"
+	"sync"
 	"sync/atomic"
 	"time"
 )
@@ -38,15 +39,17 @@ func VerifSetGroupWire(on bool) {
 
 type verifWireCoordinator struct {
 	verifMockCoordinator
-	tc   *timeoutCoordinator
-	srv  net.Conn
-	next map[int16]chan []byte // per api key (calls of different goroutines share the connection): body of the next response; nil = drop the connection
-	dead int32                 // the connection was dropped: later calls are journalled as failed without being answered
+	tc      *timeoutCoordinator
+	srv     net.Conn
+	next    map[int16]chan []byte // per api key (calls of different goroutines share the connection): body of the next response; nil = drop the connection
+	reqMu   sync.Mutex
+	reqDesc map[int16]string // per api key: what the request about to be written carries, field by field (for "wirereq")
+	dead    int32            // the connection was dropped: later calls are journalled as failed without being answered
 }
 
 func newVerifWireCoordinator(id int, h VerifCoordHandler, config *ConsumerGroupConfig) *verifWireCoordinator {
 	cli, srv := net.Pipe()
-	w := &verifWireCoordinator{verifMockCoordinator: verifMockCoordinator{id: id, h: h}, srv: srv, next: map[int16]chan []byte{}}
+	w := &verifWireCoordinator{verifMockCoordinator: verifMockCoordinator{id: id, h: h}, srv: srv, next: map[int16]chan []byte{}, reqDesc: map[int16]string{}}
 	for _, k := range []int16{8, 9, 10, 11, 12, 13, 14} {
 		w.next[k] = make(chan []byte, 1)
 	}
@@ -83,6 +86,19 @@ func (w *verifWireCoordinator) serve() {
 		}
 		key := int16(binary.BigEndian.Uint16(frame[0:2]))
 		corr := frame[4:8]
+		if key != 18 && len(frame) >= 10 { // report the request BODY the library's Conn wrote (header: key version corr client_id)
+			n := int(int16(binary.BigEndian.Uint16(frame[8:10])))
+			off := 10
+			if n > 0 {
+				off += n
+			}
+			if off <= len(frame) {
+				w.reqMu.Lock()
+				desc := w.reqDesc[key]
+				w.reqMu.Unlock()
+				w.h(VerifCoordCall{Conn: w.id, Method: "wirereq", Of: verifWireMethod(key), Desc: desc, Body: append([]byte(nil), frame[off:]...)})
+			}
+		}
 		var body []byte
 		if key == 18 { // ApiVersions v0: error, [key min max]
 			b := &verifW{}
@@ -144,6 +160,13 @@ func (w *verifWireCoordinator) outcome(method string, err error) {
 	w.h(VerifCoordCall{Conn: w.id, Method: "outcome", Of: method, Outcome: verifGroupErr(err)})
 }
 
+// describe records what the request of this api key carries, field by field, before the real Conn encodes it.
+func (w *verifWireCoordinator) describe(key int16, desc string) {
+	w.reqMu.Lock()
+	w.reqDesc[key] = desc
+	w.reqMu.Unlock()
+}
+
 // ask hands the call to the harness; on a dead connection the harness is only told (Dead) and cannot answer.
 func (w *verifWireCoordinator) ask(c VerifCoordCall) VerifCoordReply {
 	if atomic.LoadInt32(&w.dead) != 0 {
@@ -180,6 +203,7 @@ func (w *verifWireCoordinator) findCoordinator(req findCoordinatorRequestV0) (fi
 		b.i32(r.Port)
 		return fmt.Sprintf("%d,%s,%d", code, r.Host, r.Port)
 	})
+	w.describe(10, req.CoordinatorKey)
 	res, err := w.tc.findCoordinator(req)
 	w.outcome("findCoordinator", err)
 	return res, err
@@ -211,6 +235,11 @@ func (w *verifWireCoordinator) joinGroup(req joinGroupRequest) (joinGroupRespons
 		}
 		return fmt.Sprintf("%d,%d,%s,%s,%s,%s", code, r.GenerationID, r.Protocol, r.LeaderID, r.MemberID, strings.Join(ms, "|"))
 	})
+	var ps []string
+	for _, p := range req.GroupProtocols {
+		ps = append(ps, fmt.Sprintf("%s=%x", p.ProtocolName, p.ProtocolMetadata))
+	}
+	w.describe(11, fmt.Sprintf("%s,%d,%d,%s,%s,%s", req.GroupID, req.SessionTimeout, req.RebalanceTimeout, req.MemberID, req.ProtocolType, strings.Join(ps, "|")))
 	res, err := w.tc.joinGroup(req)
 	w.outcome("joinGroup", err)
 	return res, err
@@ -244,6 +273,11 @@ func (w *verifWireCoordinator) syncGroup(req syncGroupRequestV0) (syncGroupRespo
 		b.bytes(raw)
 		return desc
 	})
+	var as []string
+	for _, a := range req.GroupAssignments {
+		as = append(as, fmt.Sprintf("%s=%x", a.MemberID, a.MemberAssignments))
+	}
+	w.describe(14, fmt.Sprintf("%s,%d,%s,%s", req.GroupID, req.GenerationID, req.MemberID, strings.Join(as, "|")))
 	res, err := w.tc.syncGroup(req)
 	w.outcome("syncGroup", err)
 	return res, err
@@ -252,6 +286,7 @@ func (w *verifWireCoordinator) syncGroup(req syncGroupRequestV0) (syncGroupRespo
 func (w *verifWireCoordinator) leaveGroup(req leaveGroupRequestV0) (leaveGroupResponseV0, error) {
 	r := w.ask(VerifCoordCall{Conn: w.id, Method: "leaveGroup", GroupID: req.GroupID, MemberID: req.MemberID})
 	w.send(13, "leaveGroup", r, func(b *verifW, code int16) string { b.i16(code); return fmt.Sprint(code) })
+	w.describe(13, fmt.Sprintf("%s,%s", req.GroupID, req.MemberID))
 	res, err := w.tc.leaveGroup(req)
 	w.outcome("leaveGroup", err)
 	return res, err
@@ -260,6 +295,7 @@ func (w *verifWireCoordinator) leaveGroup(req leaveGroupRequestV0) (leaveGroupRe
 func (w *verifWireCoordinator) heartbeat(req heartbeatRequestV0) (heartbeatResponseV0, error) {
 	r := w.ask(VerifCoordCall{Conn: w.id, Method: "heartbeat", GroupID: req.GroupID, MemberID: req.MemberID, GenerationID: req.GenerationID})
 	w.send(12, "heartbeat", r, func(b *verifW, code int16) string { b.i16(code); return fmt.Sprint(code) })
+	w.describe(12, fmt.Sprintf("%s,%d,%s", req.GroupID, req.GenerationID, req.MemberID))
 	res, err := w.tc.heartbeat(req)
 	w.outcome("heartbeat", err)
 	return res, err
@@ -318,6 +354,15 @@ func (w *verifWireCoordinator) offsetFetch(req offsetFetchRequestV1) (offsetFetc
 		}
 		return strings.Join(ts, ";")
 	})
+	var fts []string
+	for _, t := range req.Topics {
+		var pp []string
+		for _, p := range t.Partitions {
+			pp = append(pp, fmt.Sprint(p))
+		}
+		fts = append(fts, t.Topic+":"+strings.Join(pp, "+"))
+	}
+	w.describe(9, req.GroupID+","+strings.Join(fts, ";"))
 	res, err := w.tc.offsetFetch(req)
 	w.outcome("offsetFetch", err)
 	return res, err
@@ -354,6 +399,15 @@ func (w *verifWireCoordinator) offsetCommit(req offsetCommitRequestV2) (offsetCo
 		}
 		return strings.Join(ts, ";")
 	})
+	var cts []string
+	for _, t := range req.Topics {
+		var pp []string
+		for _, p := range t.Partitions {
+			pp = append(pp, fmt.Sprintf("%d@%d", p.Partition, p.Offset))
+		}
+		cts = append(cts, t.Topic+":"+strings.Join(pp, "+"))
+	}
+	w.describe(8, fmt.Sprintf("%s,%d,%s,%d,%s", req.GroupID, req.GenerationID, req.MemberID, req.RetentionTime, strings.Join(cts, ";")))
 	res, err := w.tc.offsetCommit(req)
 	w.outcome("offsetCommit", err)
 	return res, err
@@ -402,4 +456,24 @@ func VerifGroupWireConclusion(method string, parts int, codes []int16) string {
 		_, err = w.offsetFetch(req)
 	}
 	return verifGroupErr(err)
+}
+
+func verifWireMethod(key int16) string {
+	switch key {
+	case 8:
+		return "offsetCommit"
+	case 9:
+		return "offsetFetch"
+	case 10:
+		return "findCoordinator"
+	case 11:
+		return "joinGroup"
+	case 12:
+		return "heartbeat"
+	case 13:
+		return "leaveGroup"
+	case 14:
+		return "syncGroup"
+	}
+	return "?"
 }
